@@ -390,14 +390,46 @@ def gen_sched(g):
             b.ops.append(gen.env_write(b.path, "\n".join(doc)))
             b.ops.append(gen.did_save(b.path))
             b.queries()
+    extra_tree = {}
+    if "#include" in text or rng.random() < 0.08:
+        # headers the text may #include: plain, with bytes that are not UTF-8, a directory, empty
+        for hn in ("A.h", "B.h", "C.h", "X.h", "GE.h", "MAXV.h", "nope.h"):
+            r = rng.random()
+            if r < 0.35:
+                extra_tree[f"{ROOT}/{hn}"] = f"#define FROM_{hn[0]} 1\n#define {hn[0]} 2\n"
+            elif r < 0.6:
+                extra_tree[f"{ROOT}/{hn}"] = {"b64": __import__("base64").b64encode(
+                    b"! caf\xe9 \xff\xfe header\n#define LATIN_" + hn[0].encode() + b" 1\n\x80\x81\n").decode()}
+            elif r < 0.7:
+                extra_tree[f"{ROOT}/{hn}/"] = ""
+            elif r < 0.8:
+                extra_tree[f"{ROOT}/{hn}"] = ""
+    if name.rsplit(".", 1)[1].isupper() and rng.random() < 0.25:
+        # a second preprocessed document that defines / undefines / redefines the same macro names,
+        # edited in between (macro tables are shared server-wide)
+        other = f"{ROOT}/zz_other.F90"
+        texts2 = [pp_storm(rng) for _ in range(rng.randint(2, 4))]
+        extra_tree[other] = texts2[0]
+        k_ins = [j for j, o in enumerate(b.ops) if o["k"] == "msg" and o["m"].get("method") in
+                 ("textDocument/didChange", "textDocument/didSave")]
+        ins = [gen.did_open(other, "")]
+        for t2 in texts2[1:]:
+            ins.append(gen.did_change(other, [{"text": t2}]))
+        ins.append(gen.did_close(other))
+        # interleave: spread the other document's notifications over the session
+        for n_, op_ in enumerate(ins):
+            at = (k_ins[min(len(k_ins) - 1, n_ * max(1, len(k_ins) // len(ins)))] + 1 + n_) if k_ins else len(b.ops)
+            b.ops.insert(min(at, len(b.ops)), op_)
     b.ops += [gen.req(b.rid(), "shutdown"), gen.note("exit")]
     argv = ["--incremental_sync", "--disable_autoupdate"]
     if rng.random() < 0.2:
         argv += ["--pp_suffixes", "." + name.rsplit(".", 1)[1]]
     if rng.random() < 0.15:
         argv += ["--pp_defs", '{"X": "1", "HAVE_FOO": ""}']
-    return {"argv": argv, "tree": {p: (v if isinstance(v, str) else __import__("dst.sim", fromlist=["x"]).enc_bytes(v))
-                                   for p, v in tree.items()},
+    tree_out = {p: (v if isinstance(v, str) else __import__("dst.sim", fromlist=["x"]).enc_bytes(v))
+                for p, v in tree.items()}
+    tree_out.update(extra_tree)
+    return {"argv": argv, "tree": tree_out,
             "ops": b.ops, "faults": faults, "sync_kind": 2, "strict_edits": True,
             "oracles": ["c03"], "sentinel_tag": tag, "budget": 6_000_000,
             "kind": kind, "base": name, "ntexts": b.ntexts,
